@@ -75,6 +75,7 @@ func checkC18(c *Ctx) {
 	c18Bind(c)
 	c18FreshSchema(c)
 	c18ServedAsRegistered(c)
+	c18NoSchemaGate(c)
 	c01FreshBuffer(c) // the raw schema bytes a client keeps from a listing are not overwritten by the next entry decoded
 	// ... nor from a list cached next to the tool registry that a re-registration fails to drop (C12's rule)
 	accs := CollectAccesses(c)
@@ -455,6 +456,7 @@ func c18Names(c *Ctx, gens []*ssa.Function) {
 		}
 		n++
 		exported, dash, tag := false, false, false
+		dashOnWholeTag, dashPos := true, g.Pos()
 		scope := []*ssa.Function{g}
 		ir.EachCall(g, func(call ssa.CallInstruction) {
 			if sc := ir.StaticCallee(call); sc != nil && c.P.IsLib(sc) && sc.Pkg == g.Pkg {
@@ -481,6 +483,10 @@ func c18Names(c *Ctx, gens []*ssa.Function) {
 				case *ssa.BinOp:
 					if s, ok := ir.ConstStr(x.Y); ok && s == "-" && (x.Op == token.EQL || x.Op == token.NEQ) {
 						dash = true
+						// `json:"-"` drops the field, `json:"-,"` names it "-": only the whole tag tells them apart
+						if oc, ok := unspill(x.X).(*ssa.Call); !ok || ir.CallName(oc) != "(reflect.StructTag).Get" {
+							dashOnWholeTag, dashPos = false, x.Pos()
+						}
 					}
 				}
 			})
@@ -488,6 +494,10 @@ func c18Names(c *Ctx, gens []*ssa.Function) {
 		c.R.Check(exported && dash && tag, "R-name-agree", "field walker "+fname(g), c.Pos(g.Pos()), "skips unexported and \"-\" fields, names from the json tag",
 			sprintf("%s walks struct fields without %s: property names differ from the member names encoding/json uses",
 				fname(g), strings.Join(missing(map[string]bool{"an IsExported test": exported, "a \"-\" test": dash, "reading the json tag": tag}), ", ")))
+		if dash {
+			c.R.Check(dashOnWholeTag, "R-name-agree", "field walker "+fname(g)+": \"-\" means the whole tag", c.Pos(dashPos), "the skip test compares the tag itself with \"-\"",
+				sprintf("%s skips a field when the NAME PART of its json tag is \"-\": encoding/json drops a field only for the tag `json:\"-\"`; a field tagged `json:\"-,\"` is emitted as a member named \"-\", which the schema then does not name (and rejects, where additional properties are not allowed)", fname(g)))
+		}
 	}
 	c.R.Min("R-name-agree", 4)
 }
@@ -1223,4 +1233,45 @@ func c18BytesOnlySlices(c *Ctx, fn *ssa.Function, test *ssa.BinOp) {
 	c.R.Check(ok, "R-kind-cases", "byte-sequence case of "+fname(fn)+" limited to slices", c.Pos(test.Pos()),
 		"the element-kind test takes effect only where Kind() == reflect.Slice",
 		sprintf("%s treats a sequence whose element kind is Uint8 as a base64 string in %s without the kind being known to be reflect.Slice (an arm shared with reflect.Array): encoding/json writes a [N]byte as an array of numbers, so the schema rejects the JSON encoding of every value with a byte array", fname(fn), fname(where)))
+}
+
+// ---------------------------------------------------------------- R-no-schema-gate
+// "A typed tool handler receives exactly the value whose JSON encoding the caller sent": the binding is Marshal →
+// Unmarshal into the handler's input type, which accepts everything encoding/json produces for that type. Nothing on
+// the tools/call path may stand between the decoded arguments and the handler that judges them by the GENERATED schema
+// (openapi3 Schema.VisitJSON / Validate…): wherever that schema is narrower than the encoding — null for a nil slice,
+// base64 for []byte, the known findings of this property — the call would be refused although its arguments are the
+// encoding of a value of the handler's type.
+func c18NoSchemaGate(c *Ctx) {
+	var roots []*ssa.Function
+	for _, es := range c.MapLiteralDispatch() {
+		for _, e := range es {
+			if e.Method == "tools/call" {
+				roots = append(roots, e.Target)
+			}
+		}
+	}
+	if len(roots) == 0 {
+		c.R.Break("R-no-schema-gate: no dispatch-table entry for \"tools/call\"")
+		return
+	}
+	n := 0
+	for _, fn := range sortedFuncs(c.ReachSync(roots...)) {
+		if !c.P.IsLib(fn) {
+			continue
+		}
+		n++
+		ir.EachCall(fn, func(call ssa.CallInstruction) {
+			nm := ir.CallName(call)
+			if !strings.Contains(nm, "openapi3") {
+				return
+			}
+			base := nm[strings.LastIndex(nm, ".")+1:]
+			if strings.HasPrefix(base, "VisitJSON") || strings.HasPrefix(base, "Validate") {
+				c.R.Violate("R-no-schema-gate", "schema validation on the tools/call path in "+fname(fn), c.Pos(call.Pos()),
+					sprintf("%s, on the way from a tools/call request to its handler, validates the arguments with %s against the tool's generated schema: encodings that encoding/json produces for the handler's input type but the schema does not admit (null for nil slices and maps, base64 for []byte, …) are refused before the handler runs — the typed handler no longer receives the value the caller sent", fname(fn), nm))
+			}
+		})
+	}
+	c.R.Hold("R-no-schema-gate", "no schema validation between tools/call and the handler", "", sprintf("%d functions on the tools/call path examined", n))
 }
